@@ -42,9 +42,24 @@ enum Content {
     Alt,
     Single,
     Random,
+    /// all ones except one zero (the shape `has_false`-style block folds must not miss)
+    SingleZero,
+    /// all ones except up to three zeros
+    FewZeros,
+    /// all zeros except up to three ones
+    FewOnes,
 }
 fn content_of(i: usize) -> Content {
     [Content::Random, Content::Zero, Content::One, Content::Alt, Content::Single][i % 5]
+}
+/// random geometry additionally draws the sparse contents (the grid keeps its original enumeration)
+fn content_random(t: &mut Tape) -> Content {
+    match t.below(8) {
+        5 => Content::SingleZero,
+        6 => Content::FewZeros,
+        7 => Content::FewOnes,
+        i => content_of(i),
+    }
 }
 
 /// bytes covering off+len (+ slack), logical range filled per `c`, surroundings random
@@ -52,8 +67,12 @@ fn make_bytes(t: &mut Tape, off: usize, len: usize, c: Content, slack: usize) ->
     let n = (off + len).div_ceil(8) + slack;
     let mut d: Vec<u8> = (0..n).map(|_| t.u8() ^ 0x3c).collect();
     let which = t.below(len.max(1));
+    let few: Vec<usize> = if matches!(c, Content::FewZeros | Content::FewOnes) { (0..1 + t.below(3)).map(|_| t.below(len.max(1))).collect() } else { vec![] };
     for i in 0..len {
         let v = match c {
+            Content::SingleZero => i != which,
+            Content::FewZeros => !few.contains(&i),
+            Content::FewOnes => few.contains(&i),
             Content::Zero => false,
             Content::One => true,
             Content::Alt => i % 2 == 0,
@@ -109,7 +128,7 @@ fn geo_random(t: &mut Tape) -> Geo {
         2 => 1000 + t.below(9000),
         _ => t.below(201),
     };
-    Geo { off1, off2, len, c1: content_of(t.below(5)), c2: content_of(t.below(5)) }
+    Geo { off1, off2, len, c1: content_random(t), c2: content_random(t) }
 }
 /// grid enumeration: index -> (len 0..=200, off1 in OFFS, off2 in OFFS(subset), content 0..3)
 fn geo_grid(idx: u64, t: &mut Tape) -> Geo {
@@ -125,7 +144,7 @@ fn geo_grid(idx: u64, t: &mut Tape) -> Geo {
 }
 fn geo(c: &mut Case, grid: bool) -> Geo {
     let g = if grid { geo_grid(c.index, &mut c.tape) } else { geo_random(&mut c.tape) };
-    if g.len > 0 && (g.off1 % 8 != 0 || g.off1 % 64 != g.off2 % 64) && matches!(g.c1, Content::Random | Content::Alt | Content::Single) {
+    if g.len > 0 && (g.off1 % 8 != 0 || g.off1 % 64 != g.off2 % 64) && matches!(g.c1, Content::Random | Content::Alt | Content::Single | Content::SingleZero | Content::FewZeros | Content::FewOnes) {
         c.nontrivial();
     }
     c.class(if g.off1 % 8 == 0 { "off1-byte-aligned" } else { "off1-unaligned" });
